@@ -1,1 +1,98 @@
-static void run_digit(void) {}
+/* Digit-level helpers: the portable double-digit multiply/divide lives here.  Included by h_c01.c.
+ * Scope 0 (8-bit digits): every argument tuple.  Other scopes: the extended digit alphabet cubed. */
+
+static void
+digit_desc(char *b, size_t n) { snprintf(b, n, "%s W=%d first argument 0x%s, all other arguments", d_op, W, HX(&d_a, hx4)); }
+
+static void
+run_digit(void) {
+	const vset_t *ds;
+	size_t i, j, k; R x, y, z, N, q, r, want, t; int pop, b;
+#if C01_SCOPE == 0
+	ds = &VS_EX1;
+#else
+	ds = &VS_DX;
+#endif
+	vh_set_describer(digit_desc);
+	for (i = 0; i < ds->n; i ++) {
+		bn_digit_t dx, dy, dz, lo, hi, rlo, rhi;
+		vs_get(ds, i, &x); dx = r_to_digit(&x);
+		d_a = x;
+		/* one-argument helpers */
+		if (vh_begin("bn_digit_bits_ctz_clz")) {
+			d_op = "bn_digit_bits/ctz/clz/ffs/is_pow2";
+			CALL_COUNT();
+			for (pop = 0, b = 0; b < W; b ++) pop += r_bit(&x, b);
+			if (bn_digit_bits(dx) != (size_t)pop) vh_fail("value", "bn_digit_bits(0x%s)=%zu want %d", HX(&x, hx1), bn_digit_bits(dx), pop);
+			if (bn_digit_ctz(dx) != (size_t)(r_is_zero(&x) ? W : r_ctz(&x))) vh_fail("value", "bn_digit_ctz(0x%s)=%zu", HX(&x, hx1), bn_digit_ctz(dx));
+			if (bn_digit_clz(dx) != (size_t)(W - r_bitlen(&x))) vh_fail("value", "bn_digit_clz(0x%s)=%zu", HX(&x, hx1), bn_digit_clz(dx));
+			if (bn_digit_ffs(dx) != (size_t)(r_is_zero(&x) ? 0 : r_ctz(&x) + 1)) vh_fail("value", "bn_digit_ffs(0x%s)=%zu", HX(&x, hx1), bn_digit_ffs(dx));
+			if ((0 != bn_digit_is_pow2(dx)) != (1 == pop)) vh_fail("value", "bn_digit_is_pow2(0x%s)", HX(&x, hx1));
+			if (!vh_case_failed) vh_nontrivial();
+		}
+		/* two-argument helpers */
+		if (vh_begin("bn_digit_mult")) {
+			d_op = "bn_digit_mult";
+			for (j = 0; j < ds->n; j ++) {
+				vs_get(ds, j, &y); dy = r_to_digit(&y);
+				CALL_COUNT();
+				lo = hi = 0x5a;
+				g_crashed = 0;
+				GUARDED(bn_digit_mult(dx, dy, &lo, &hi));
+				if (g_crashed) continue;
+				r_mul(&want, &x, &y);
+				r_from_digit(&t, hi); r_shl(&t, &t, W); r_from_digit(&q, lo); r_add(&t, &t, &q);
+				if (!r_eq(&t, &want)) vh_fail("value", "0x%s * 0x%s = 0x%s want 0x%s", HX(&x, hx1), HX(&y, hx2), HX(&t, hx3), HX(&want, hx4));
+				else vh_nontrivial();
+			}
+		}
+		if (vh_begin("bn_digit_gcd")) {
+			d_op = "bn_digit_gcd / bn_digit_gcd_bin";
+			for (j = 0; j < ds->n; j ++) {
+				bn_digit_t g1 = 0, g2 = 0;
+				vs_get(ds, j, &y); dy = r_to_digit(&y);
+				CALL_COUNT();
+				g_crashed = 0;
+				GUARDED(g1 = bn_digit_gcd(dx, dy));
+				GUARDED(g2 = bn_digit_gcd_bin(dx, dy));
+				if (g_crashed) continue;
+				r_gcd(&want, &x, &y);
+				r_from_digit(&t, g1); r_from_digit(&q, g2);
+				if (!r_eq(&t, &want)) vh_fail("value", "bn_digit_gcd(0x%s, 0x%s) = 0x%s want 0x%s", HX(&x, hx1), HX(&y, hx2), HX(&t, hx3), HX(&want, hx4));
+				else if (!r_eq(&q, &want)) vh_fail("value-bin", "bn_digit_gcd_bin(0x%s, 0x%s) = 0x%s want 0x%s", HX(&x, hx1), HX(&y, hx2), HX(&q, hx3), HX(&want, hx4));
+				else vh_nontrivial();
+			}
+		}
+		/* three-argument: (hi:lo) / divisor with x = divisor */
+		if (vh_begin("bn_digit_div")) {
+			d_op = "bn_digit_div (first argument is the divisor)";
+			for (j = 0; j < ds->n; j ++) for (k = 0; k < ds->n; k ++) {
+				volatile int rc = -1; bn_digit_t qs = 0; volatile int rcs = -1;
+				vs_get(ds, j, &y); dy = r_to_digit(&y);	/* dividend low */
+				vs_get(ds, k, &z); dz = r_to_digit(&z);	/* dividend high */
+				CALL_COUNT();
+				lo = hi = rlo = rhi = 0x5a;
+				g_crashed = 0;
+				GUARDED(rc = bn_digit_div(dy, dz, dx, &lo, &hi, &rlo, &rhi));
+				GUARDED(rcs = bn_digit_div__int_short(dy, dz, dx, &qs));
+				if (g_crashed) continue;
+				if (r_is_zero(&x)) {
+					if (RC_OK(rc) || RC_OK(rcs)) vh_fail("div-by-zero-accepted", "0x%s:0x%s / 0 returned 0", HX(&z, hx1), HX(&y, hx2));
+					continue;
+				}
+				if (!RC_OK(rc) || !RC_OK(rcs)) continue;
+				r_shl(&N, &z, W); r_add(&N, &N, &y);
+				r_divmod(&q, &r, &N, &x);
+				r_from_digit(&t, hi); r_shl(&t, &t, W); r_from_digit(&want, lo); r_add(&t, &t, &want);
+				if (!r_eq(&t, &q)) { vh_fail("value", "0x%s / 0x%s: quotient 0x%s want 0x%s", HX(&N, hx1), HX(&x, hx2), HX(&t, hx3), HX(&q, hx4)); continue; }
+				r_from_digit(&t, rlo);
+				if (!r_eq(&t, &r)) { vh_fail("value", "0x%s %% 0x%s: remainder_lo 0x%s want 0x%s", HX(&N, hx1), HX(&x, hx2), HX(&t, hx3), HX(&r, hx4)); continue; }
+				if (0 != rhi) { r_from_digit(&t, rhi); vh_fail("value-remainder-hi", "0x%s %% 0x%s: remainder_hi 0x%s, a remainder is below the one-digit divisor so it must be 0", HX(&N, hx1), HX(&x, hx2), HX(&t, hx3)); continue; }
+				r_from_digit(&t, qs); r_trunc(&want, &q, W);
+				if (!r_eq(&t, &want)) { vh_fail("value-short", "bn_digit_div__int_short 0x%s / 0x%s: low quotient digit 0x%s want 0x%s", HX(&N, hx1), HX(&x, hx2), HX(&t, hx3), HX(&want, hx4)); continue; }
+				vh_nontrivial();
+			}
+		}
+	}
+	vh_set_describer(describe);
+}
